@@ -27,6 +27,10 @@ def _payloads(gen, inst):
     for k, op in zip(keys, ops):
         w = op.split()
         out[k] = (int(w[1], 16), bytes.fromhex(w[2]) if w[2] != "-" else b"")
+    if gen == 5 and not inst["zones"]:
+        # an AirTouch 5 system without zones answers the zone names / zone status requests by echoing the request (docs/design.md)
+        out[(0x1F, 0x13)] = (0x1F, bytes([0xFF, 0x13]))
+        out[(0xC0, 0x21)] = (0xC0, bytes([0x21, 0, 0, 0, 0, 0, 0, 0]))
     return out
 
 
@@ -64,17 +68,38 @@ class Console:
             else:
                 key = (hdr.message_id, None)
             self.requests.append((ticks(env.loop.time()), cid, key))
-            self.answer(cid, key)
+            self.answer(cid, key, payload)
 
-    def answer(self, cid, key):
+    def dynamic(self, key, req_payload):
+        """answers that depend on the console's CURRENT state (scenario keys `ac_state`, `err_text`, changed over time by `changes`)
+        -> (message id, payload) or None"""
+        env = self.env
+        st = env.console_state
+        if st is None:
+            return None
+        gen = env.gen
+        if key == ((0x2D, None) if gen == 4 else (0xC0, 0x23)):
+            recs = [dict(a) for a in st["acs"]]
+            op = consolesim.at4_ac_status(recs) if gen == 4 else consolesim.at5_ac_status([dict(r, setpoint=r.get("setpoint", 22) * 10 - 100) for r in recs])
+            w = op.split()
+            return int(w[1], 16), bytes.fromhex(w[2])
+        if key == (0x1F, 0x10):
+            ac = req_payload[2] if len(req_payload) > 2 else 0
+            text = st["err_text"].get(ac, b"")
+            w = consolesim.err_info(gen, ac, text).split()
+            return int(w[1], 16), bytes.fromhex(w[2])
+        return None
+
+    def answer(self, cid, key, req_payload=b""):
         env = self.env
         sc = env.scenario
-        if key not in env.payloads:
+        dyn = self.dynamic(key, req_payload)
+        if key not in env.payloads and dyn is None:
             return                                   # a command: a console sends no direct answer here
-        n = sum(1 for r in self.requests if r[2] in env.payloads)
+        n = sum(1 for r in self.requests if r[2] in env.payloads or r[2] == (0x1F, 0x10))
         if sc.get("silent_from") is not None and n > sc["silent_from"]:
             return
-        mid, payload = env.payloads[key]
+        mid, payload = dyn if dyn is not None else env.payloads[key]
         frame = env.frame(mid, payload)
         delay = sc.get("answer_delay", 0)
         conn = env.net.conns[cid]
@@ -166,6 +191,10 @@ class Env:
         self.S = S
         self.reg = R.INSTANCE
         self.payloads = _payloads(gen, scenario["inst"])
+        self.console_state = None
+        if scenario.get("ac_state"):
+            # a console with memory: AC status and error-information answers are built from its current state
+            self.console_state = {"acs": [dict(a) for a in scenario["ac_state"]], "err_text": dict(scenario.get("err_text", {}))}
         self.console = Console(self)
         self.events = []                 # (tick, kind, args) of the network, plus ("pass",) markers are not recorded
         self.moment_hooks = []
@@ -260,6 +289,13 @@ def run(gen, scenario, moment=None, reinit=False, idle=8000):
             loop.call_later(t * TICK, lambda c=call: loop.create_task(_call(env, c)))
         for (t, what) in scenario.get("faults", []):
             loop.call_later(t * TICK, lambda w=what: _fault(env, w))
+        for (t, ac, code, text) in scenario.get("changes", []):
+            def change(ac=ac, code=code, text=text):
+                for a in env.console_state["acs"]:
+                    if a["id"] == ac:
+                        a["err"] = code
+                env.console_state["err_text"][ac] = text
+            loop.call_later(t * TICK, change)
         if scenario.get("chatter"):
             # unsolicited traffic (names, abilities, AC status, timer status, zone/group status in turn): not heartbeat responses
             keys = [k for k in env.payloads if k != (0x1F, 0x30)]
@@ -391,6 +427,12 @@ async def _call(env, call):
 
 
 def _fault(env, what):
+    if what == "refuse":
+        env.net.mode = "refuse"
+        return
+    if what == "accept":
+        env.net.mode = "accept"
+        return
     c = env.net.conns[-1] if env.net.conns else None
     if c is None or c.conn_lost:
         return
@@ -412,6 +454,7 @@ def _fault(env, what):
 
 INST = dict(acs=[dict(id=0, modes=0x1F, fans=0x7F, lo=16, hi=30, zones=[0, 1], mode=4)],
             zones={0: dict(sensor=True, ctrl=1), 1: dict(sensor=False)})
+INST0 = dict(acs=[dict(id=0, modes=0x1F, fans=0x7F, lo=16, hi=30, zones=[], mode=4)], zones={})      # AirTouch 5 only: no zones at all
 
 SCENARIOS = {
     "plain": dict(inst=INST, horizon=120),
